@@ -209,6 +209,46 @@ theorem mem_cliqueEdges (nStar nClique : Nat) : ∀ (cnt size : Nat) (e : List N
       · exact Or.inl ⟨h, h2⟩
       · exact Or.inr ⟨by omega, h2⟩
 
+theorem nodup_cliqueEdges (nStar nClique : Nat) : ∀ (cnt size : Nat), (cliqueEdges nStar nClique size cnt).Nodup := by
+  intro cnt
+  induction cnt with
+  | zero => intro size; simp [cliqueEdges]
+  | succ cnt ih =>
+    intro size
+    simp only [cliqueEdges]
+    rw [List.nodup_append]
+    refine ⟨nodup_combsAux _ _ _, ih _, ?_⟩
+    intro a ha b hb hab
+    subst hab
+    rw [mem_combsAux] at ha
+    rw [mem_cliqueEdges] at hb
+    omega
+
+theorem nodup_starClique (nStar nClique dMax : Nat) (hs : 1 ≤ nStar) : (starClique nStar nClique dMax).Nodup := by
+  unfold starClique
+  rw [List.nodup_append]
+  refine ⟨?_, nodup_cliqueEdges _ _ _ _, ?_⟩
+  · rw [List.nodup_append]
+    refine ⟨?_, by simp, ?_⟩
+    · exact List.Nodup.map_on (fun x _ y _ h => by simpa using h) List.nodup_range
+    · intro a ha b hb hab
+      subst hab
+      rw [List.mem_map] at ha
+      obtain ⟨i, hi, rfl⟩ := ha
+      rw [List.mem_range] at hi
+      simp at hb
+      omega
+  · intro a ha b hb hab
+    subst hab
+    rw [mem_cliqueEdges] at hb
+    have h0 : 0 ∈ a := by
+      rw [List.mem_append, List.mem_map] at ha
+      rcases ha with ⟨i, -, rfl⟩ | ha
+      · simp
+      · simp at ha; subst ha; simp
+    have := hb.2.2 0 h0
+    omega
+
 /-! ### configuration model: edges are m-subsets of the keys -/
 
 theorem foldl_eraseIdx_sublist : ∀ (ds s : List Nat), (ds.foldl (fun s i => s.eraseIdx i) s).Sublist s := by
